@@ -1084,8 +1084,10 @@ func (d *DoltSession) ResolveRootForRef(ctx *sql.Context, dbName, refStr string)
 	if refStr == doltdb.Working || refStr == doltdb.Staged {
 		// TODO: get from working set / staged update time
 		now := types.Timestamp(time.Now())
-		// TODO: no current database
-		roots, _ := d.GetRoots(ctx, ctx.GetCurrentDatabase())
+		roots, ok := d.GetRoots(ctx, dbName)
+		if !ok {
+			return nil, nil, "", sql.ErrDatabaseNotFound.New(dbName)
+		}
 		if refStr == doltdb.Working {
 			return roots.Working, &now, refStr, nil
 		} else if refStr == doltdb.Staged {
